@@ -279,3 +279,50 @@ func Permutations(n int, yield func([]int)) {
 	}
 	rec(0)
 }
+
+// SmallLists enumerates list specs: every node subset of ids, every ordered edge
+// list of at most maxEdges objects drawn from (from in froms, type in types,
+// non-empty target subset of targets with at most maxTo targets), every root
+// subset of rootIDs. Ill-formed lists are included; filter with WellFormed.
+func SmallLists(ids, froms []string, types []sbom.Edge_Type, targets []string, maxTo, maxEdges int, rootIDs []string, yield func(ListSpec)) {
+	var objs []EdgeSpec
+	for _, o := range EdgeObjects(froms, types, targets) {
+		if len(o.To) <= maxTo {
+			objs = append(objs, o)
+		}
+	}
+	for _, ns := range Subsets(ids) {
+		EdgeLists(objs, maxEdges, func(el []EdgeSpec) {
+			for _, rs := range Subsets(rootIDs) {
+				yield(ListSpec{Nodes: ns, Edges: el, Roots: rs})
+			}
+		})
+	}
+}
+
+// SpecWellFormed is WellFormed on a spec.
+func SpecWellFormed(s ListSpec) bool {
+	in := map[string]bool{}
+	for _, n := range s.Nodes {
+		if in[n] {
+			return false
+		}
+		in[n] = true
+	}
+	for _, e := range s.Edges {
+		if !in[e.From] {
+			return false
+		}
+		for _, t := range e.To {
+			if !in[t] {
+				return false
+			}
+		}
+	}
+	for _, r := range s.Roots {
+		if !in[r] {
+			return false
+		}
+	}
+	return true
+}
